@@ -5,7 +5,7 @@ VERIF = os.path.dirname(HERE)
 sys.path.insert(0, os.path.join(VERIF, "tools"))
 import extract, annotate
 
-KEEP = ["nl_fmt_sb_ensure", "nl_fmt_sb_new", "nl_fmt_sb_append_cstr", "nl_fmt_sb_append_char"]
+KEEP = ["int_to_string", "float_to_string", "nl_fmt_sb_ensure", "nl_fmt_sb_new", "nl_fmt_sb_append_cstr", "nl_fmt_sb_append_char"]
 
 
 def _fmt_sb_rule(repo, work):
@@ -57,4 +57,9 @@ def fmt_obligations(prop="C20"):
                     unwindset=["nl_fmt_sb_ensure.0:5", "strlen.0:6"], strength="B(appended text of <= 4 bytes; builder fill level and capacity arbitrary up to 2^20)",
                     functions=["nl_fmt_sb_append_cstr (emitted)", "nl_fmt_sb_ensure (emitted)"],
                     must_have=[r"nl_fmt_sb_append_cstr\.postcondition", r"COVER"], min_checks=20, timeout=600, witness=None))
+    # number formatting of the emitted runtime: the snprintf bound fits the block gc_alloc_string returned, and the block holds the
+    # longest text of the conversion (plain CBMC: snprintf / gc_alloc_string are stub bodies in the harness = assumed libc / GC contracts)
+    obs.append(dict(id=prop + ".fmt.to_string", prop=prop, harness="harness/fmt_sb_h.c", entry="h_to_string", extract=["fmt_sb"],
+                    defines={"FMT_TOSTRING": 1}, unwind=8, strength="U", functions=["int_to_string (emitted)", "float_to_string (emitted)"],
+                    must_have=[r"C20\.fmt snprintf bound", r"C20\.fmt block holds", r"COVER"], min_checks=10, timeout=300, witness=None))
     return obs
